@@ -5,7 +5,7 @@ from vlib.core import hx
 MODULES = ["TLVerif.Props.C03"]
 THEOREMS = ["TLVerif.Props.C03." + t for t in [
     "layout_agrees_write", "write_never_panics", "write_total", "body_roundtrip", "tl2_roundtrip_prim",
-    "tl2_roundtrip", "tl2_rewrite_identical", "bit_alias_roundtrip_fails"]]
+    "tl2_roundtrip", "tl2_rewrite_identical", "bit_alias_roundtrip_fails", "roundtrip_all_fails"]]
 
 # witness inputs of the known finding (bit behind an alias / inside Maybe): what the reader accepts is re-written to bytes it rejects
 BIT_WITNESS = [("y.flag", "01"), ("y.useFlag", "06060100000001"), ("y.maybeBit", "050203030101")]
@@ -16,7 +16,7 @@ def bit_schema():
 
 
 def run(c):
-    c.lean(MODULES, THEOREMS, sources=["TLVerif.Codec.TL2", "TLVerif.Codec.TL2Lemmas"])
+    c.lean(MODULES, THEOREMS, sources=["TLVerif.Codec.TL2", "TLVerif.Codec.TL2Lemmas", "TLVerif.Codec.TL2RoundTrip"])
     model, schemas = t2.prepare(c, t2.corpus(c) + [bit_schema()])
     rng = c.rng
     per = 24 if c.thorough else 5
